@@ -195,7 +195,30 @@ def run(tier: str) -> Run:
         r3.check(not leaks, name, loc(fi), {'leaks': leaks[:3]}, key=f'{mod}:{name}')
 
         # R4 dtype grid (conversion kernels only: the contract is documented there)
-        if mod == 'tof.chopper_cascade' or name in NO_DTYPE_CONTRACT:
+        if mod == 'tof.chopper_cascade':
+            # no precision contract is documented for the cascade helpers (a float32 time is promoted today); what the property
+            # does promise for every kernel is unit equivariance, which an operand squeezed into an integer dtype breaks
+            # (5 ms + 5.028 ms flight time is not 10 ms): no integer unit conversion, no cast to an integer dtype, for any operand dtypes
+            scalars = [p for p, s in specs.items() if s.kind == 'scalar']
+            for combo in itertools.product(grid_choices, repeat=len(scalars)):
+                dt = dict(zip(scalars, combo, strict=True))
+                n_grid += 1
+                inst = f'{name}[' + ','.join(f'{p}={d}' for p, d in dt.items()) + ']'
+                verdicts = []
+                for o in run_kernel(repo, fi, specs, dtypes=dt):
+                    if o.kind == 'raise':
+                        continue
+                    for e in events(o, 'int-unit-conversion'):
+                        verdicts.append({'integer_unit_conversion': e.detail, 'where': e.where})
+                    for e in events(o, 'narrowing-cast'):
+                        if e.detail['dst'] in ('int64', 'int32'):
+                            verdicts.append({'narrowing_cast': e.detail, 'where': e.where})
+                    for key, v in flat(o.value):
+                        if any(d.startswith('int') for d in dt.values()) and not any(d == 'float32' for d in dt.values()) and v.dtype != 'float64':
+                            verdicts.append({'key': key, 'dtype': v.dtype, 'expected': 'float64 (integer and double-precision operands)'})
+                r4.check(not verdicts, inst, loc(fi), {'problems': verdicts[:2]}, key=f'{mod}:{name}:int-squeeze' if verdicts else inst)
+            continue
+        if name in NO_DTYPE_CONTRACT:
             continue
         scalars = [p for p, s in specs.items() if s.kind == 'scalar']
         for combo in itertools.product(grid_choices, repeat=len(scalars)):
